@@ -6,6 +6,7 @@ REPO=${UOM_REPO:-/repo}
 cd "$(dirname "$0")/.."
 SEEDS=${@:-$(ls seeded)}
 git -C $REPO diff --quiet || { echo "$REPO has local changes"; exit 2; }
+mkdir -p .build; rm -rf .build/evidence_backup; cp -r evidence .build/evidence_backup
 for s in $SEEDS; do
   P=$(pwd)/seeded/$s/patch.diff
   [ -f $P ] || continue
@@ -15,6 +16,7 @@ for s in $SEEDS; do
   nv=$(echo "$out" | grep -c '^VIOLATION')
   first=$(echo "$out" | grep '^VIOLATION' | head -1)
   git -C $REPO checkout -- .
+  cp .build/evidence_backup/*.json evidence/ 2>/dev/null
   echo "seed=$s property=$prop exit=$rc violations=$nv $first"
   python3 - <<PY
 import json
